@@ -43,11 +43,28 @@ OPTIONS = ["euler", "tauleap", "gillespie"]
 # ---------------------------------------------------------------------------------------------
 def rand_state(rng, n, ns):
     """species-major list of floats; returns (state, class name)"""
-    cls = rng.choice(["sub", "sub", "ints", "big", "switch", "empty", "mixed", "mixed", "nondyadic"])
+    cls = rng.choice(["sub", "sub", "ints", "big", "switch", "empty", "mixed", "mixed", "nondyadic", "nearint", "nearint"])
     st = []
     for s in range(ns):
         c = cls if cls != "mixed" else rng.choice(["sub", "ints", "big", "switch", "empty", "frac"])
         col = []
+        if c == "nearint":
+            # total a hair (2^-40 .. 2^-33) BELOW an integer, from dyadic pieces whose float sums are exact
+            tot_int = rng.choice([1, 2, 3, 5, 17])
+            eps = Fraction(1, 2 ** rng.choice([40, 38, 35, 33]))
+            if n == 1:
+                col = [float(Fraction(tot_int) - eps)]
+            else:
+                parts = [Fraction(rng.randint(0, 8 * tot_int), 8 * (n - 1)) for _ in range(n - 1)]
+                scale = sum(parts)
+                if scale > tot_int - Fraction(1, 2):
+                    parts = [p_ * (tot_int - Fraction(1, 2)) / scale for p_ in parts] if scale else parts
+                    parts = [Fraction(int(p_ * 1024), 1024) for p_ in parts]
+                last = Fraction(tot_int) - eps - sum(parts)
+                col = [float(p_) for p_ in parts] + [float(last)]
+                rng.shuffle(col)
+            st += col
+            continue
         for i in range(n):
             if c == "sub":
                 # totals below one molecule: dyadic pieces summing to < 1
@@ -84,10 +101,21 @@ def gen_cases(ctx, count):
         combos = [(m, o) for m in MODES for o in OPTIONS]
         rng.shuffle(combos)
         take = combos if ctx.tier == "thorough" else combos[:ctx.n(5, 12)]
+        chem = None
+        if rng.random() < 0.35:
+            # chemostatted entries (any truthy flag): processed like every other entry
+            chem = [rng.choice([0, 0, 0, 1, 1, 5]) for _ in range(n * ns)]
         for (m, o) in take:
             cases.append({"space": space, "kind": kind, "n": n, "ns": ns, "state": state, "cls": cls, "mode": m, "option": o,
                           "seed": seed, "policy": rng.choice(["on_t_sample", "on_iteration"]),
                           "twice": rng.random() < 0.25 or seed == 0})
+            if chem is not None:
+                cases[-1]["chem"] = chem
+            if rng.random() < 0.2:
+                # the TYPE of the seed: an equal seed of another integer / integer-valued type must give the same run
+                cases[-1]["seed_type"] = rng.choice(["np.int64", "np.uint32", "np.int32", "float", "np.float64"])
+                cases[-1]["seed"] = cases[-1]["seed"] % (2 ** 31 - 1)
+                cases[-1]["twice"] = True
         if rng.random() < 0.5:
             # a script in another unit system (time and quantity): the engine must still see MOLECULES
             # (the deterministic engine works in the script's own quantity unit, so its Poisson / redist processing acts on
@@ -138,13 +166,21 @@ def child_case(case, lib):
            "environments": ["a"]}
     system = stoch_gen.build_system(net, case["space"])
     system.state = list(case["state"])
+    if case.get("chem") is not None:
+        system.chemostats = list(case["chem"])
     sent = [float(v) for v in system.state.value]
+
+    def typed_seed():
+        import numpy
+        sd = case["seed"]
+        return {"np.int64": numpy.int64, "np.uint32": numpy.uint32, "np.int32": numpy.int32, "float": float,
+                "np.float64": numpy.float64}.get(case.get("seed_type"), int)(sd)
     def mk_script():
         kw = {} if case["mode"] is None else {"init_state_processing": case["mode"]}
         if case.get("units"):
             kw["units_system"] = st.UnitsSystem(**case["units"])
         return st.RDScript(system, t_sample=[0], time_step=1 / 64, t_max=1 / 64, sampling_policy=case["policy"],
-                           rng_seed=case["seed"], **kw)
+                           rng_seed=typed_seed(), **kw)
     try:
         script = mk_script()
     except (ValueError, TypeError) as ex:
@@ -238,14 +274,12 @@ def oracle(case, res):
         for s in range(ns):
             tot = sum(x[s * n:(s + 1) * n])
             got = sum(yf[s * n:(s + 1) * n])
-            if abs(tot - round(tot)) < Fraction(1, 10 ** 9) and tot != round(tot):
-                ambiguous = True
-                continue
-            # float accumulation of the total in the engine: only exact when the partial sums are exact
+            # float accumulation of the total in the engine (cell order): decidable when it is exact, or when rounding
+            # cannot move it across an integer
             ftot = 0.0
             for i in range(n):
                 ftot += case["state"][s * n + i]
-            if frac(ftot) != tot and math.floor(ftot) != math.floor(tot):
+            if frac(ftot) != tot and (math.floor(ftot) != math.floor(tot) or abs(tot - round(tot)) < Fraction(1, 10 ** 9)):
                 ambiguous = True
                 continue
             if got != math.floor(tot):
@@ -376,9 +410,13 @@ def run(ctx):
                 ctx.count("correction_loop_cases")
                 ctx.count("correction_loop_uniforms", sum(1 for d in res["draws"] if d[0] == "unif"))
             fails, amb = oracle(case, res)
-            small = {k2: case[k2] for k2 in ("space", "kind", "n", "ns", "state", "mode", "option", "seed", "policy", "twice", "units") if k2 in case}
+            small = {k2: case[k2] for k2 in ("space", "kind", "n", "ns", "state", "mode", "option", "seed", "policy", "twice", "units", "chem", "seed_type") if k2 in case}
             if case.get("units"):
                 ctx.count("units_quantity_" + case["units"]["quantity"])
+            if case.get("chem") and any(case["chem"]):
+                ctx.count("cases_with_chemostatted_entries")
+            if case.get("seed_type"):
+                ctx.count("seed_type_" + case["seed_type"])
             for key, what in fails:
                 ctx.violation(key, what, small, impl={k2: res.get(k2) for k2 in ("x0", "hang", "crash", "exception", "raised") if k2 in res},
                               expected="C14 predicate")
